@@ -275,6 +275,13 @@ STAGES['C02']['thorough'].append(
 STAGES['C11']['quick'].append(
     ('signed-histories', 'MimeBuild', cfg(MAXP='2', MAXE='1', MAXA='1', ENCS='{"qp"}', SMIMES=KEYS2, CCS='<<"crlf", "utf8", "size900">>',
                                            OPSEQS='{<<a, b, c>> : a \\in {"WriteTo", "Reader", "FailSinkLate", "FailSinkMid", "SkipMw"}, b \\in {"Write", "File", "FailSinkLate", "UpdateReader", "SkipMw", "Sendmail"}, c \\in {"WriteTo", "TempFile", "SkipMw"}}')))
+# a message created (and sent) by mail.QuickSend: what is rendered afterwards equals what went over the wire
+STAGES['C11']['quick'].append(
+    ('made-by-quicksend', 'MimeBuild', cfg(MAXP='1', MAXE='0', MAXA='0', ENCS='{"qp"}', STYLES='{"quicksend"}', CCS='<<"crlf", "utf8", "dots", "size900", "lf", "eq", "long">>', ROTS='0..6',
+                                           OPSEQS='{<<"WriteTo", "WriteTo">>, <<"Reader", "File">>, <<"TempFile", "UpdateReader", "Write">>}')))
+STAGES['C11']['thorough'].append(
+    ('made-by-quicksend', 'MimeBuild', cfg(MAXP='1', MAXE='0', MAXA='0', ENCS='{"qp"}', STYLES='{"quicksend"}', CCS=TEXTCC, ROTS='0..16',
+                                           OPSEQS='{<<a, b>> : a, b \\in {"WriteTo", "Reader", "File", "TempFile", "UpdateReader", "FailSinkMid"}}')))
 # two middlewares of the caller; WriteToSkipMiddleware leaves the first out of ONE render: the renders before and after are unchanged
 STAGES['C11']['quick'].append(
     ('middleware-pair-skip', 'MimeBuild', cfg(MAXP='2', MAXE='0', MAXA='1', ENCS='{"qp"}', MWS='{"pair"}', SMIMES='{[key |-> "", inter |-> FALSE], [key |-> "ecdsa", inter |-> FALSE]}',
